@@ -175,7 +175,7 @@ impl Prop for Months {
             return judge(&sigbase, &what, in_range, target, r.map(|d| (d, 0, None)), 0, None);
         }
         let ia = c.day as i128 * tl::DAY_NS + c.ns as i128;
-        let d0 = match catch(|| mk_dt_off(ia, c.off)) {
+        let d0 = match catch(|| mk_dt_off_any(ia, c.off)) {
             Ok(d) => d,
             Err(p) => return fail("c05.harness_build", "receiver builds", p.short()),
         };
